@@ -496,6 +496,12 @@ func buildField(ww *conversionVisitor, node sourcewalk.FieldNode) (*descriptorpb
 				return nil, fmt.Errorf("integer rules: exclusive maximum requires maximum to be set")
 			}
 
+			if st.Integer.Rules.MultipleOf != nil {
+				// buf.validate has no rule for it; refusing is better than
+				// compiling to a constraint which silently does not check it.
+				return nil, fmt.Errorf("integer rules: multipleOf is not implemented")
+			}
+
 			if err := checkIntegerBounds(st.Integer.Format, st.Integer.Rules); err != nil {
 				return nil, err
 			}
